@@ -101,7 +101,7 @@ func ruleC19ListedFirst(c *Ctx) {
 	core.EachInstr(em, func(i ssa.Instruction) {
 		if call, ok := i.(*ssa.Call); ok {
 			key := core.CalleeKey(&call.Call)
-			if strings.HasPrefix(key, "slices.Sort") || strings.HasPrefix(key, "sort.") {
+			if isOrderingSort(call, key) {
 				sortCall = call
 			}
 		}
@@ -313,6 +313,58 @@ func ruleInferredOrderDedup(c *Ctx, rule string) {
 			}
 		}
 		unchecked = append(unchecked, st)
+	})
+	// a name is appended exactly where it becomes a property: next to an entry into Schema.Properties under that name
+	// (an append that also runs for a name that is a property already gives that name a second, later place, and the
+	// de-duplication that follows keeps the wrong one)
+	nApp := 0
+	c.eachFam(ft, func(i ssa.Instruction) {
+		st, ok := i.(*ssa.Store)
+		if !ok {
+			return
+		}
+		fa, ok := st.Addr.(*ssa.FieldAddr)
+		if !ok || c.fieldName(fa.X.Type(), fa.Field) != "Schema.PropertyOrder" {
+			return
+		}
+		call, ok := st.Val.(*ssa.Call)
+		if !ok || core.CalleeKey(&call.Call) != "builtin.append" || !c.mentionsField(call.Call.Args[0], "Schema.PropertyOrder", 3) || len(call.Call.Args) != 2 {
+			return
+		}
+		// the appended name: append(order, name) is append(order, []string{name}...)
+		var names []ssa.Value
+		for _, src := range []ssa.Value{call.Call.Args[1]} {
+			if sl, ok := src.(*ssa.Slice); ok {
+				if al, ok := sl.X.(*ssa.Alloc); ok && al.Referrers() != nil {
+					for _, r := range *al.Referrers() {
+						if ia, ok := r.(*ssa.IndexAddr); ok && ia.Referrers() != nil {
+							for _, r2 := range *ia.Referrers() {
+								if s2, ok := r2.(*ssa.Store); ok && s2.Addr == ssa.Value(ia) {
+									names = append(names, s2.Val)
+								}
+							}
+						}
+					}
+				}
+			}
+		}
+		if len(names) != 1 {
+			return
+		}
+		nApp++
+		fi := core.Info(st.Parent())
+		together := false
+		core.EachInstr(st.Parent(), func(j ssa.Instruction) {
+			mu, ok := j.(*ssa.MapUpdate)
+			if !ok || !c.mentionsField(mu.Map, "Schema.Properties", 4) || !(mu.Key == names[0] || sameVarValue(mu.Key, names[0]) || sharesSource(mu.Key, names[0]) || sameFieldLoad(mu.Key, names[0])) {
+				return
+			}
+			if mu.Block() == st.Block() || mu.Block().Dominates(st.Block()) && fi.PostDominates(st.Block(), mu.Block()) || st.Block().Dominates(mu.Block()) && fi.PostDominates(mu.Block(), st.Block()) {
+				together = true
+			}
+		})
+		c.R.Check(together, rule, fmt.Sprintf("%s:append#%d:where-the-property-is-entered", core.FuncName(st.Parent()), nApp), c.pos(st), "a name is appended to the order exactly where it is entered into the properties",
+			"a name is appended to PropertyOrder on paths on which it is not entered into Properties (for instance for a name that is a property already): the name gets a second, later position, and the de-duplication keeps that one, so the inferred order no longer follows the fields")
 	})
 	// the store of a de-duplicated slice into Schema.PropertyOrder: value does not come from append(load PropertyOrder, ...)
 	n := 0
